@@ -498,7 +498,7 @@ Proof.
   - exists rows. split; [reflexivity|]. apply rows_same_refl.
 Qed.
 
-(* the rows of the former finding F-C33-1 (fixed by /repo commit a939896): +0.0 and -0.0 come back
+(* the rows of the former finding F-C33-1 (fixed by /repo commit d11dc56): +0.0 and -0.0 come back
    bit for bit, and a spiller gives the same rows whether or not it spilled *)
 Lemma zero_float_regression_l :
   deser_row (ser_row [VInt 7; VFloat 0; VFloat F64_NEG_ZERO]) = Some ([VInt 7; VFloat 0; VFloat F64_NEG_ZERO], []) /\
